@@ -29,6 +29,9 @@ Section Fetch.
 Variable body : Type.
 Variable hashes_to : body -> cid -> bool.           (* SumStream(body, c.MhType, c.MhLength) == c.Hash() *)
 Variable links_of : body -> option (list edge).     (* dag-json decode; None = not decodable *)
+Variable verifiable : cid -> bool.                  (* the hash function the CID names is available:
+                                                       the traversal link system's HasherChooser
+                                                       (multihash.GetHasher) accepts its code *)
 
 (* the destination store: the newest entry of a key is the one a read returns *)
 Definition bstore := list (cid * body).
@@ -64,7 +67,7 @@ Definition fetch_block (resp : responder) (reqs : list cid) (c : cid) (s : bstor
     end
   end.
 
-Inductive fres := FOk | FBad (c : cid) | FUndecodable (c : cid) | FFuel.
+Inductive fres := FOk | FBad (c : cid) | FUndecodable (c : cid) | FUnverifiable (c : cid) | FFuel.
 
 Record fout := FO {
   f_order : list cid;
@@ -77,6 +80,9 @@ Fixpoint fwalk (fuel : nat) (resp : responder) (v : view) (stop : option cid) (l
   match fuel with
   | O => FO [] reqs s FFuel
   | S f =>
+    (* LinkSystem.Load chooses the hasher BEFORE it opens the storage: a CID whose hash
+       function is not available is refused without a request, whatever the store holds *)
+    if negb (verifiable c) then FO [] reqs s (FUnverifiable c) else
     match fetch_block resp reqs c s with
     | (reqs1, s1, None) => FO [] reqs1 s1 (FBad c)
     | (reqs1, s1, Some b) =>
@@ -207,6 +213,8 @@ End Fetch.
 Definition sym_hashes_to (b : N) (c : cid) : bool := b =? c.
 Definition sym_links_of (d : dag) (b : N) : option (list edge) := dag_get d b.
 
+Definition sym_verifiable (unavailable : list cid) (c : cid) : bool := negb (memb c unavailable).
+
 Definition sym_responder (script : list (option N)) : responder N :=
   fun i => nth i script None.
 
@@ -221,24 +229,24 @@ Definition store_view (s : bstore N) (keys : list cid) : list (cid * N) :=
 
 Definition keys_of (s : bstore N) : list cid := map fst s.
 
-(* dag, initial store, syncs (resolved options, the answers the proxy gave in request order,
+(* dag, the blocks whose CID names an unavailable hash function, initial store, syncs (resolved options, the answers the proxy gave in request order,
    observed: ok?, hook log, request log), final store as sorted (key, content) pairs *)
-Definition fcase := (dag * list (cid * N) *
+Definition fcase := (dag * list cid * list (cid * N) *
                      list (fsync * list (option N) * (bool * list cid * list cid)) *
                      list (cid * N))%type.
 
-Fixpoint run_fsyncs (d : dag) (l : list (fsync * list (option N) * (bool * list cid * list cid)))
+Fixpoint run_fsyncs (d : dag) (un : list cid) (l : list (fsync * list (option N) * (bool * list cid * list cid)))
          (s : bstore N) : bool * bstore N :=
   match l with
   | [] => (true, s)
   | (q, script, (ok, hooks, reqs)) :: r =>
-    let o := fhandle N sym_hashes_to (sym_links_of d) (S (length d)) (sym_responder script) q s in
-    let '(rest, s') := run_fsyncs d r (fh_store N o) in
+    let o := fhandle N sym_hashes_to (sym_links_of d) (sym_verifiable un) (S (length d)) (sym_responder script) q s in
+    let '(rest, s') := run_fsyncs d un r (fh_store N o) in
     (Bool.eqb (fres_ok (fh_err N o)) ok && cids_eqb (fh_hooks N o) hooks && cids_eqb (fh_reqs N o) reqs && rest, s')
   end.
 
 Definition fcase_ok (c : fcase) : bool :=
-  let '(d, s0, syncs, final) := c in
-  let '(ok, s') := run_fsyncs d syncs s0 in
+  let '(d, un, s0, syncs, final) := c in
+  let '(ok, s') := run_fsyncs d un syncs s0 in
   ok && nstore_eqb (store_view s' (map fst final)) final &&
   subset (keys_of s') (map fst final).
